@@ -66,6 +66,41 @@ func foldTheory() string {
 	fmt.Fprintf(&b, "(declare-fun mpair_1 (%s Int %s Int Int) Int)\n", arrII, arrII)
 	fmt.Fprintf(&b, "(assert (forall ((p %s) (pl Int) (q %s) (ql Int) (n Int)) (! (=> (<= n 0) (= (mpair_1 p pl q ql n) gtOne)) :pattern ((mpair_1 p pl q ql n)))))\n", arrII, arrII)
 	fmt.Fprintf(&b, "(assert (forall ((p %s) (pl Int) (q %s) (ql Int) (n Int)) (! (=> (> n 0) (= (mpair_1 p pl q ql n) (gtMul (mpair_1 p pl q ql (- n 1)) (gtPair (select p (+ pl (- n 1))) (select q (+ ql (- n 1))))))) :pattern ((mpair_1 p pl q ql n)))))\n", arrII, arrII)
+	// aggregation tree of the batch verification (struct node: sig, pk, left, right at cells 0..3):
+	// treeOK(h, n, len): n is the root of a well-formed tree over len leaves in the pointer heap h. Only the unfolding
+	// direction is axiomatised (what a caller holding treeOK may rely on); the shape follows build_tree: the left
+	// subtree covers len - len/2 leaves, the right one len/2, a leaf has no children.
+	{
+		hp := "(Array Int (Array Int Ptr))"
+		fld := func(k int) string { return fmt.Sprintf("(select (select h (p.obj n)) (+ (p.off n) %d))", k) }
+		validP := func(p string, cells int) string {
+			return fmt.Sprintf("(and (not (= (p.obj %s) 0)) (<= 0 (p.off %s)) (<= (+ (p.off %s) %d) (objsize (p.obj %s))))", p, p, p, cells, p)
+		}
+		// (treeOKU equals treeOK; only U-terms are unfolded, and the subtrees appear as plain treeOK: no matching loop)
+		fmt.Fprintf(&b, "(declare-fun treeOK (%s Ptr Int) Bool)\n(declare-fun treeOKU (%s Ptr Int) Bool)\n", hp, hp)
+		fmt.Fprintf(&b, "(assert (forall ((h %s) (n Ptr) (len Int)) (! (= (treeOKU h n len) (treeOK h n len)) :pattern ((treeOKU h n len)))))\n", hp)
+		fmt.Fprintf(&b, "(assert (forall ((h %s) (n Ptr) (len Int)) (! (=> (treeOK h n len) (and %s (>= len 1) %s %s (=> (= len 1) (= (p.obj %s) 0)) (=> (> len 1) (and (not (= (p.obj %s) 0)) (treeOK h %s (- len (div len 2))) (treeOK h %s (div len 2)))))) :pattern ((treeOKU h n len)))))\n",
+			hp, validP("n", 4), validP(fld(0), 3), validP(fld(1), 6), fld(2), fld(2), fld(2), fld(3))
+	}
+	// tree-shaped sums (the order in which build_tree adds): one element for n <= 1, else add(left half, right half);
+	// stated directly over the cells (stride = cells per element) so that the right half is the same function at a shifted offset
+	for _, ts := range []struct {
+		name, add string
+		stride   int
+		elem     string
+	}{
+		{"e1tsum_3", "e1Add", 3, "(e1c (select a o) (select a (+ o 1)) (select a (+ o 2)))"},
+		{"e2tsum_6", "e2Add", 6, "(e2c (fp2c (select a o) (select a (+ o 1))) (fp2c (select a (+ o 2)) (select a (+ o 3))) (fp2c (select a (+ o 4)) (select a (+ o 5))))"},
+		{"e1tsum_1", "e1Add", 1, "(select a o)"},
+		{"e2tsum_1", "e2Add", 1, "(select a o)"},
+	} {
+		// (the contracts mention <name>U, which equals <name>; only the U-terms are unfolded, once: no matching loop)
+		fmt.Fprintf(&b, "(declare-fun %s (%s Int Int) Int)\n(declare-fun %sU (%s Int Int) Int)\n", ts.name, arrII, ts.name, arrII)
+		fmt.Fprintf(&b, "(assert (forall ((a %s) (o Int) (n Int)) (! (= (%sU a o n) (%s a o n)) :pattern ((%sU a o n)))))\n", arrII, ts.name, ts.name, ts.name)
+		fmt.Fprintf(&b, "(assert (forall ((a %s) (o Int) (n Int)) (! (=> (<= n 1) (= (%s a o n) %s)) :pattern ((%sU a o n)))))\n", arrII, ts.name, ts.elem, ts.name)
+		fmt.Fprintf(&b, "(assert (forall ((a %s) (o Int) (n Int)) (! (=> (> n 1) (= (%s a o n) (%s (%s a o (- n (div n 2))) (%s a (+ o (* %d (- n (div n 2)))) (div n 2))))) :pattern ((%sU a o n)))))\n",
+			arrII, ts.name, ts.add, ts.name, ts.name, ts.stride, ts.name)
+	}
 	fmt.Fprintf(&b, "(declare-fun pack3 (%s Int) %s)\n", arrII, arrII)
 	fmt.Fprintf(&b, "(assert (forall ((a %s) (lo Int) (k Int)) (! (= (select (pack3 a lo) k) (e1c (select a (+ lo (* 3 k))) (select a (+ lo (* 3 k) 1)) (select a (+ lo (* 3 k) 2)))) :pattern ((select (pack3 a lo) k)))))\n", arrII)
 	fmt.Fprintf(&b, "(declare-fun pack6 (%s Int) %s)\n", arrII, arrII)
@@ -145,6 +180,9 @@ func init() {
 
 // foldOpOf maps the contract-level names e1sum/e2sum/frsum/isum (and their gather forms ...of) to the fold.
 func foldOpOf(name string) (foldOp, bool, bool) {
+	if name == "e1tsum" || name == "e2tsum" {
+		return foldOp{name: name}, false, true
+	}
 	gather := strings.HasSuffix(name, "of")
 	base := strings.TrimSuffix(name, "of")
 	for _, op := range foldOps {
@@ -175,6 +213,22 @@ func (e *SpecEnv) evalFold(name string, op foldOp, gather bool, args []ast.Expr)
 	}
 	if len(args) != 2 {
 		specFail("%s(p, n)", name)
+	}
+	if name == "e1tsum" || name == "e2tsum" {
+		// tree-shaped sum over the cells at a pointer or slice
+		p := e.eval(args[0])
+		n := e.eval(args[1]).S
+		var ptr string
+		var et types.Type
+		if t, ok := deref(p.T); ok {
+			ptr, et = p.S, t
+		} else if st, ok := p.T.Underlying().(*types.Slice); ok {
+			ptr, et = app("sl.ptr", p.S), st.Elem()
+		} else {
+			specFail("%s: argument is neither a pointer nor a slice", name)
+		}
+		fn := fmt.Sprintf("%s_%dU", name, g.L.Size(et))
+		return SVal{S: app(fn, app("select", g.heapTerm(e.st, "Int"), pObj(ptr)), pOff(ptr), n), T: typInt, Sort: "Int"}
 	}
 	arr, lo := e.seqArg(name, args[0])
 	n := e.eval(args[1]).S
@@ -337,6 +391,7 @@ var chunkFns = []chunkFn{
 	{"g2ptAt", "g2ptA", "g2pt", 96, "Int"},
 	{"g2canonAt", "g2canonA", "g2canon", 96, "Bool"},
 	{"h2cAt", "h2cA", "h2cOf", 128, "Int"}, // hash-to-curve image of the 128-byte string (pred h2cOf(b) = h2cb(b[0:128]))
+	{"be16At", "be16A", "be16Of", 16, "Int"}, // big-endian value of 16 bytes (pred be16Of(b) = be16(b[0:16]))
 }
 
 func chunkFnOf(name string) (chunkFn, bool) {
